@@ -45,7 +45,7 @@ CHECKS = {
                 text="Scfg/Spec/GraphDefs.lean defines reachability, SCCs, dominance, head, headers/entries, exiting/exits by closure / by definition; Scfg.C13.reachRef_sound, reachRef_complete_bounded, headRef_spec, findHead_eq_ref, exitingRef_spec relate them to path predicates. "
                      "Props/C13Doms.lean proves for the work-list model of _find_dominators_internal (two loop invariants) that a returned table contains a at n iff every entry-to-n path passes a; C13Sub.lean proves the subset queries equal their membership specifications; C13Scc.lean proves what a true verdict of the SCC validator means (partition, mutual reachability inside, certified non-reachability across). "
                      "Every answer of the real find_head, compute_scc, find_headers_and_entries, find_exiting_and_exits, is_reachable_dfs, _doms, _post_doms, _imm_doms is compared with the definition and with the Lean model of the algorithm (Tarjan, dominator fix-point) on ALL directed graphs of the scope.", ref="§7 C13",
-                note="Trusted: Lean kernel + standard axioms. The theorems are about the Lean models, tied to the code by exact comparison on ALL graphs of the scope plus random larger ones (0 mismatches required); Tarjan's algorithm and _imm_doms are not proved a priori: SCC answers are validated per instance by the verified validator, immediate dominators are compared with the definition immRef on top of the proved dominator tables. Theorems are up to the models' fuel (that it suffices is observed, not proved)."),
+                note="Trusted: Lean kernel + standard axioms. The theorems are about the Lean models, tied to the code by exact comparison on ALL graphs of the scope plus random larger ones (0 mismatches required); Tarjan's algorithm and _imm_doms are not proved a priori: SCC answers are validated per instance by the verified validator, immediate dominators are compared with the definition immRef on top of the proved dominator tables. For the dominator model the fuel provably suffices (doms_total / postDoms_total); the other theorems are up to the models' fuel (that it suffices is observed, not proved)."),
     "C16": dict(cat="proof", tech="Lean 4: model of both iterators compared order-exactly with the code; specification predicates with soundness theorems judged on every real enumeration",
                 text="Scfg/Model/Iter.lean models SCFG.__iter__ and region_view_iterator; for every (sub)graph at every depth, before and after every stage, the real enumerations are compared with the model and judged by iterSpecOK / viewSpecOK, whose meaning Scfg.C16.iterSpecOK_sound / viewSpecOK_sound prove.", ref="§7 C16",
                 note="Trusted: Lean kernel + standard axioms; exporter. Scfg.C16.viewIter_closed is a-priori (every hierarchy): whenever the view model answers, the answer is duplicate-free, contains members only, contains the head and is closed under the view's successors, hence holds every member reachable from the head; that every member is so reachable, and the same for __iter__ (no a-priori theorem), is judged per instance by the specification deciders on the real enumerations."),
